@@ -1,10 +1,10 @@
 CONSTANTS
   NameSeq <- N3
   Slots = {1, 2}
-  MaxNodes = 8
+  MaxNodes = 12
   MaxDepth = 4
 INIT Init
-NEXT Next
+NEXT NextB
 CONSTRAINT Bound
 INVARIANT InvSrc
 INVARIANT InvDst
